@@ -706,10 +706,12 @@ class ModuleStub(Stub):
         parts = []
         if self.imports_stub.imports:
             parts.append(self.imports_stub.render())
-        for typed_dict_class_stub in sorted(
-            self.typed_dict_class_stubs, key=lambda s: s.name
+        # Same-named classes are ordered by their text, not by the order in which
+        # the traces they come from happened to be read.
+        for _, rendered in sorted(
+            (stub.name, stub.render()) for stub in self.typed_dict_class_stubs
         ):
-            parts.append(typed_dict_class_stub.render())
+            parts.append(rendered)
         for func_stub in sorted(self.function_stubs.values(), key=lambda s: s.name):
             parts.append(func_stub.render())
         for class_stub in sorted(self.class_stubs.values(), key=lambda s: s.name):
